@@ -22,8 +22,11 @@ def describe(rec):
 def key_of(clause, rec):
     # stable signature: the clause and the class of algorithm name that triggers it
     a = rec["alg"]
+    if clause == "P_flags_not_zero":
+        return "%s:%s" % (clause, "none" if a == codec.NONE_ALG else "ssh-rsa" if a.startswith("ssh-rsa") else
+                          "passed-name" if a in codec.PASSED_ALGS or a.endswith(codec.CERT_SUFFIX) else "unknown-name")
     if clause.startswith("P_flags"):
-        return "%s:%s" % (clause, "none" if a == codec.NONE_ALG else a if a in codec.agent_algs() else "other-name")
+        return "%s:%s" % (clause, a)
     if clause in ("P_key_blob", "C_blob_choice"):
         return "%s:%s" % (clause, rec["key"])
     if clause == "P_non_signature_accepted":
@@ -31,7 +34,36 @@ def key_of(clause, rec):
     return clause
 
 
+def judge(c, batch, fx):
+    consts = {"Algs": {"<none>"}, "KeyKinds": {"rsa"}, "CertKinds": codec.cert_kinds(fx),
+              "ReplyTypes": "@{14}", "Mutation": "none"}      # the trace spec takes the case from the record
+    res, _ = c.trace("AgentSign_Trace", [{k: rec[k] for k in ("alg", "key", "rtype", "sent", "outcome")} for rec in batch],
+                     cfg_text(spec="TSpec", constants=consts, invariants=["Report"]))
+    if len(res["DONE"]) != len(batch):
+        raise Machinery("trace validation consumed %d of %d traces" % (len(res["DONE"]), len(batch)))
+    c.traces += len(batch)
+    c.verdicts(res["VERDICT"], lambda tid, clause, row: (
+        key_of(clause, batch[tid - 1]),
+        "%s fails: %s%s" % (clause, describe(batch[tid - 1]), " [%s]" % batch[tid - 1]["error"] if batch[tid - 1]["error"] else ""),
+        {k: v for k, v in batch[tid - 1].items() if k != "sent"}))
+    return {row[1] for row in res["VERDICT"]}
+
+
+def replay(c, rp):
+    """bin/check C45 --replay replays/C45/<key>.json : same algorithm / key kind / reply type, fresh data of the same length"""
+    fx = codec.agent_key_fixtures()
+    rnd = random.Random(c.seed)
+    data, sig = (bytes(rnd.getrandbits(8) for _ in range(rp.get(k, 32))) for k in ("datalen", "siglen"))
+    rec = codec.run_agent_sign(fx, rp["key"], rp["alg"], rp["rtype"], data, sig)
+    c.case(key=(rp["alg"], rp["key"], rp["rtype"]), sample=rec)
+    judge(c, [rec], fx)
+    c.rule = "replay of one recorded case"
+
+
 def run(c):
+    if getattr(c, "replay_file", None):
+        import json
+        return replay(c, json.load(open(c.replay_file))["replay"])
     fx = codec.agent_key_fixtures()
     algs = codec.agent_algs()
     replies = QUICK_REPLIES if c.quick else list(range(256))
@@ -44,8 +76,8 @@ def run(c):
     if len(cases) != len(algs) * len(fx) * len(replies):
         raise Machinery("expected %d emitted cases, got %d" % (len(algs) * len(fx) * len(replies), len(cases)))
     small = dict(consts, ReplyTypes="@{5, 13, 14, 15}")
-    for mut, inv in MUTATIONS.items():
-        c.mc("AgentSign", cfg_text(constants=dict(small, Mutation=mut), invariants=invs), expect=inv, name="mutation " + mut)
+    for mut, inv in [kv for kv in MUTATIONS.items() if not c.quick or kv[0] in ("flags_swapped", "any_reply_accepted")]:
+        c.mc("AgentSign", cfg_text(constants=dict(small, Mutation=mut), invariants=invs), expect=inv, name="mutation " + mut, workers=4)
 
     # ---- RP: spec -> code
     rnd = random.Random(c.seed)
@@ -79,23 +111,15 @@ def run(c):
         rec = codec.run_agent_sign(fx, kind, alg, rtype, data, sig, body=body, chunks=chunks, kwarg=rnd.random() < 0.7)
         batch.append(rec)
         c.case(key=(alg, kind, rtype, dl, sl))
-    tv_consts = dict(consts, Algs={"<none>"}, ReplyTypes="@{14}")      # the trace spec takes the case from the record
-    res, _ = c.trace("AgentSign_Trace", [{k: rec[k] for k in ("alg", "key", "rtype", "sent", "outcome")} for rec in batch],
-                     cfg_text(spec="TSpec", constants=tv_consts, invariants=["Report"]))
-    if len(res["DONE"]) != len(batch):
-        raise Machinery("trace validation consumed %d of %d traces" % (len(res["DONE"]), len(batch)))
-    c.traces += len(batch)
-    flagged = {row[1] for row in res["VERDICT"]}
+    flagged = judge(c, batch, fx)
     for tid in range(1, n_rp + 1):
         rec, (req, outcome) = batch[tid - 1], expect[tid - 1]
         got = [{k: f[k] for k in ("type", "blob", "data", "flags")} for f in rec["sent"]]
         same = got == [req] and rec["outcome"] == outcome and all(f["framed"] for f in rec["sent"])
         if same == (tid in flagged):
             raise Machinery("replay comparison and trace verdict disagree on %s" % describe(rec))
-    c.verdicts(res["VERDICT"], lambda tid, clause, row: (
-        key_of(clause, batch[tid - 1]),
-        "%s fails: %s%s" % (clause, describe(batch[tid - 1]), " [%s]" % batch[tid - 1]["error"] if batch[tid - 1]["error"] and clause.startswith("P_sig") else ""),
-        {k: v for k, v in batch[tid - 1].items()}))
+    if flagged and not (c.violations or c.known_hits or c.conf):
+        raise Machinery("TLC flagged %d traces but no verdict was registered" % len(flagged))
     c.rule = ("every (algorithm name, key kind, reply type) over %d names x %d key kinds x %d reply types (TLC-enumerated) + seeded random "
               "cases with mutated names, data up to 70000 bytes, random reply bodies and fragmented replies; distinct = distinct "
               "(name, key kind, reply type[, data length, signature length])" % (len(algs), len(fx), len(replies)))
